@@ -8,6 +8,7 @@ import (
 	"go/token"
 	"go/types"
 	"sort"
+	"strconv"
 	"strings"
 
 	"golang.org/x/tools/go/ssa"
@@ -311,7 +312,7 @@ func c08R2(c *Ctx, lx *lexerModel) {
 	c.obN("C08.R2", "grammar/NEWLINE", "internal/parser/YarnSpinnerLexer.g4", true, "premise re-read: one line break per NEWLINE token ("+body+"); line-break characters "+strings.Join(chars, ","), false)
 	// look-ahead calls reachable from the handler (itself and module callees, one level)
 	type laTest struct {
-		k     int64 // LA(k)
+		k      int64 // LA(k)
 		consts map[int64]bool
 	}
 	tests := map[int64]map[int64]bool{}
@@ -473,6 +474,47 @@ func c08R2(c *Ctx, lx *lexerModel) {
 	}
 	sort.Strings(missing)
 	c.ob("C08.R2", f.Name+"/covers-line-breaks", pos, len(missing) == 0, map[bool]string{true: "the look-ahead compares the next character with every line-break character of the NEWLINE rule (" + strings.Join(chars, ",") + ")", false: "the look-ahead does not recognise " + strings.Join(missing, ", ") + " as the start of a blank line: with that line ending, a blank line inside a block would still close it (LF and CRLF renderings of one script would differ)"}[len(missing) == 0])
+	// the guard as a truth function of the two look-ahead characters, when it can be evaluated: true exactly for a line
+	// break at LA(1) and for // at LA(1), LA(2) (the comparisons being there is not enough: `a || b` written `a && b`
+	// never holds)
+	if len(guards) > 0 && len(missing) == 0 {
+		g := guards[0]
+		noteLocalDefs(w, f)
+		var wrong []string
+		evaluable := true
+		probes1 := []int64{'\n', '\r', '/', 'x', '-', '#', '<'}
+		for r := range breakChars {
+			probes1 = append(probes1, int64(r))
+		}
+		for _, a := range probes1 {
+			for _, b := range []int64{'/', 'x', '\n'} {
+				evalLeaf = func(e ast.Expr, _ int64) (int64, bool) {
+					if k, ok := laCall(info, e); ok {
+						switch k {
+						case 1:
+							return a, true
+						case 2:
+							return b, true
+						}
+					}
+					return 0, false
+				}
+				_, got, ok := evalIntExpr(info, g.Cond, nil, 0)
+				evalLeaf = nil
+				if !ok {
+					evaluable = false
+					break
+				}
+				want := breakChars[rune(a)] || (a == '/' && b == '/')
+				if got != want && len(wrong) < 3 {
+					wrong = append(wrong, "LA(1)="+strconv.QuoteRune(rune(a))+", LA(2)="+strconv.QuoteRune(rune(b))+": "+map[bool]string{true: "treated as a line without content", false: "treated as a line with content"}[got])
+				}
+			}
+		}
+		if evaluable {
+			c.ob("C08.R2", f.Name+"/look-ahead-truth", w.Pos(g.Pos()), len(wrong) == 0, map[bool]string{true: "the look-ahead test holds exactly for a line break at LA(1) and for // at LA(1), LA(2) (evaluated on " + itoa(len(probes1)*3) + " character pairs)", false: "the look-ahead test is wrong for " + strings.Join(wrong, "; ") + ": a blank or comment-only line would open or close a block, or a line with content would not"}[len(wrong) == 0])
+		}
+	}
 	okComment := tests[1]['/'] && tests[2]['/']
 	c.ob("C08.R2", f.Name+"/covers-comment-lines", pos, okComment, map[bool]string{true: "the look-ahead recognises the comment opener // (LA(1) and LA(2))", false: "the look-ahead does not recognise comment-only lines (// at LA(1), LA(2)): a comment at another indentation would open or close a block"}[okComment])
 }
